@@ -17,8 +17,8 @@ use crate::formatter::sequence::*;
 use crate::formatter::trivia::*;
 
 pub(super) use self::comments::{
-    append_trailing_statement_suffix, comment_is_inline_after_anchor,
-    extract_trailing_comment_rendered, has_inline_non_trivia_after, next_code_token_is_left_paren,
+    append_following_comment_suffix, append_trailing_statement_suffix,
+    comment_is_inline_after_anchor, extract_trailing_comment_rendered, has_inline_non_trivia_after, next_code_token_is_left_paren,
     render_comment_with_spacing, render_direct_body_comment,
     source_order_token_is_trailing_statement_semicolon,
 };
@@ -80,6 +80,38 @@ pub fn render_closure_block_body(
 }
 
 fn render_layout_node(
+    ctx: &FormatContext,
+    root: &LuaSyntaxNode,
+    node: &LayoutNodePlan,
+    plan: &FormatPlan,
+) -> Vec<DocIR> {
+    let mut docs = render_layout_node_content(ctx, root, node, plan);
+
+    // The block renderer leaves a comment that trails a statement on the same line to that
+    // statement's renderer. Statements printed verbatim from the source (format-disabled nodes,
+    // statements with inline comments, `goto`/label/`;`/…) and `break`/`continue` have no such
+    // step, so the comment is attached here; comments inside the node are part of its text.
+    if let LayoutNodePlan::Syntax(syntax_plan) = node
+        && let Some(syntax) = find_node_by_id(root, syntax_plan.syntax_id)
+    {
+        let verbatim = matches!(
+            docs.as_slice(),
+            [DocIR::SourceNode { node: printed, .. }] if *printed == syntax
+        );
+        if verbatim
+            || matches!(
+                syntax_plan.kind,
+                LuaSyntaxKind::BreakStat | LuaSyntaxKind::ContinueStat
+            )
+        {
+            append_following_comment_suffix(ctx, plan, &mut docs, &syntax);
+        }
+    }
+
+    docs
+}
+
+fn render_layout_node_content(
     ctx: &FormatContext,
     root: &LuaSyntaxNode,
     node: &LayoutNodePlan,
@@ -443,6 +475,12 @@ fn layout_comment_is_inline_trailing(
     let Some(comment_node) = find_node_by_id(root, comment_plan.syntax_id) else {
         return false;
     };
+
+    // `; -- note` where the optional `;` is dropped: nothing is left for the comment to trail,
+    // it is printed as a line of its own.
+    if layout_node_should_be_skipped_in_block(root, nodes, index - 1) {
+        return false;
+    }
 
     has_non_trivia_before_on_same_line_tokenwise(&comment_node)
         && !comment_node.text().contains_char('\n')
